@@ -55,6 +55,10 @@ def main(tier):
     meta = []
     for cfg, src in progs:
         seed = f"{r.getrandbits(128):032x}"
+        if r.random() < 0.2:
+            # seed bytes of any other length (the empty slice included) are seed bytes too
+            k = r.choice([0, 1, 4, 8, 15, 17, 24, 32])
+            seed = "S" + "".join(f"{r.getrandbits(8):02x}" for _ in range(k))
         mode = r.choice(("", "", "", "m", "M"))
         if mode == "M" and ("w" in cfg or "d" in cfg):
             mode = "m"        # max-mode exploding pools never terminate (C07's subject)
@@ -116,6 +120,29 @@ def main(tier):
         if parts[0] != parts[1]:
             run.violation("reseeded-context-differs-from-fresh", {"cfg": cfg, "seed1": s1, "seed2": s2, "first_program": p,
                                                                   "second_program": q, "reseeded": parts[0][:300], "fresh": parts[1][:300]})
+    # ---- where a die is rolled does not matter: inside a function, a nested function, a computed value or directly, the k-th die of
+    #      an evaluation is the k-th draw of the context's generator
+    D = "d1000000"
+    WRAPS = [f"func r1(){{ {D} }}; [r1(), r1(), {D}, r1()]", f"&cv = {D}; [cv, cv, {D}, cv]", f"func r1(){{ {D} }}; func r2(){{ r1() }}; [r2(), {D}, r1(), r2()]",
+             f"func r1(){{ {D} }}; &cv = r1(); [cv, r1(), cv, {D}]", f"x = [0,0,0,0]; i = 0; while i < 4 {{ x[i] = {D}; i = i + 1 }}; x",
+             f"func r1(n){{ n > 0 ? r1(n - 1) : {D} }}; [r1(0), r1(2), {D}, r1(1)]", f"[{D}, ({D}), -(0-{D}), 0 + {D}]", f"[1 ? {D} : 0, 0 ? 0 : {D}, 0 || {D}, null ?? {D}]"]
+    lines, meta = [], []
+    for w in WRAPS:
+        for _ in range(4 if tier == "thorough" else 2):
+            seed = f"{r.getrandbits(128):032x}"
+            lines += [f"runseq L300000 {seed} {hx(f'[{D}, {D}, {D}, {D}]')}", f"runseq L300000 {seed} {hx(w)}"]
+            meta.append((w, seed))
+    out = run.go_only("wrapped-dice", lines, go_timeout=120)
+    for i, (w, seed) in enumerate(meta):
+        a, b = out[2 * i][1], out[2 * i + 1][1]
+        run.nontriv(("wrap", w, seed))
+        fa, fb = a.split(), b.split()
+        sa = re.search(r" seed=(\S+)", a)
+        sb = re.search(r" seed=(\S+)", b)
+        if len(fa) < 2 or len(fb) < 2 or fa[0] != "ok" or fb[0] != "ok":
+            run.count("wrap.not-ok")
+        elif " ".join(fa[1:5]) != " ".join(fb[1:5]) or (sa and sb and sa.group(1) != sb.group(1)):
+            run.violation("dice-inside-a-body-do-not-follow-the-context-generator", {"seed": seed, "plain": a[:300], "program": w, "wrapped": b[:300]})
     # ---- a used context given another configuration and re-seeded: nothing of the earlier configuration may survive
     #      (compiled default-sides expressions, flags, modes)
     DS_EXPR = ["20", "6", "100", "2+2", "d4", "面数"]
